@@ -65,14 +65,12 @@ static inline ptrdiff_t creader_readline(struct creader *reader,
         return it - *token;
     }
 
-    // Отматываем назад, чтобы корректно расчитать расстояние.
-    while ((it != *token) && (*it == '\n' || *it == '\r'))
+    // Отматываем назад, чтобы корректно расчитать расстояние:
+    // it указывает на терминатор, перед ним могут стоять '\r'.
+    while ((it != *token) && (*(it - 1) == '\r'))
         --it;
 
-    if (it == *token)
-        return 0;
-
-    len = it - *token + 1;
+    len = it - *token;
     return len;
 }
 
